@@ -429,19 +429,9 @@ pub fn cases(run_seed: u64, tier: &str, _scratch: &str) -> Vec<Value> {
     let mut wl = Rng::stream(run_seed, "workload");
     let mut hs = Rng::stream(run_seed, "hashseed");
     let mut out = Vec::new();
-    let files = c11::corpus_files();
-    if sw.chance(1, 3) && !files.is_empty() {
+    let picked = if sw.chance(1, 3) { c11::pick_corpus_file(&mut sw, tier) } else { None };
+    if let Some(f) = picked {
         // corpus: every flavour of one file
-        let mut f = files[sw.usize(files.len())].clone();
-        if tier != "thorough" {
-            for _ in 0..20 {
-                let len = std::fs::metadata(format!("{}/{}", c11::corpus_dir(), f)).map(|m| m.len()).unwrap_or(0);
-                if len <= 300_000 {
-                    break;
-                }
-                f = files[sw.usize(files.len())].clone();
-            }
-        }
         for light in [false, true] {
             for lazy in [false, true] {
                 let mut c = new_case("C02", run_seed);
